@@ -13,6 +13,7 @@ from . import fst
 from .asttypes import (
     ASTS_LEAF_STMTLIKE,
     ASTS_LEAF_BLOCK,
+    If,
 )
 
 from .common import (
@@ -441,6 +442,9 @@ def _getput_line_comment(
     if is_block := (ast_cls in ASTS_LEAF_BLOCK):
         if field is None:
             field = 'body'
+
+        elif field == 'orelse' and ast_cls is If and len(orelse := ast.orelse) == 1 and (f := orelse[0].f).is_elif():  # the 'orelse' header of an `if` with an `elif` is the header of that `elif`, which is the block header of the child `If` and has to be handled as such, otherwise the `elif` body on the same line would be deleted as junk
+            return f._getput_line_comment(comment, 'body', full)
 
         _, _, end_ln, end_col = self._loc_block_header_end(field)
 
